@@ -165,6 +165,9 @@ pub fn corpus_run(out_path: &str, mutants: usize, max_steps: usize) {
             // mutants, analysed as an overlay on the real path (imports keep resolving)
             let mut made = 0;
             let mut tries = 0;
+            // scenario files are the recorded inputs of specific findings: they are run as written, not mutated
+            // (a mutant of a known-finding input is the same finding under another spelling)
+            let mutants = if path.starts_with("/verif/scenarios") { 0 } else { mutants };
             while made < mutants && tries < mutants * 6 {
                 tries += 1;
                 let Some(m) = mutate(&src, &mut rng) else { continue };
